@@ -3,7 +3,7 @@
    are replaced by the YAML of what they render to -- and therefore, when that twin is
    reference-free, the deep merge (Spec/DeepMerge.v) of the twin. *)
 From RV Require Import Model.Yaml Model.Interp Model.Node Spec.DeepMerge Proofs.ValueFacts Proofs.MappingFacts Proofs.WfFacts
-     Proofs.YamlFacts Proofs.InterpFacts Proofs.Mono Proofs.Refinement Proofs.NodeRefines Proofs.Twin Proofs.Unrender Proofs.Inline.
+     Proofs.YamlFacts Proofs.SemiClean Proofs.InterpFacts Proofs.Mono Proofs.Refinement Proofs.NodeRefines Proofs.Twin Proofs.Unrender Proofs.Inline.
 
 Section TS.
   Variable root : mapping.
@@ -112,16 +112,23 @@ Section TS.
   Qed.
 End TS.
 
-(** merged clean layers are well-formed parameters *)
+(** layers: mappings with scalar keys carrying at most one marker (a key may be spelled twice) *)
+Definition sclean_layer (y : yaml) : Prop := match y with YMap _ => sclean_yaml y | _ => False end.
+
+Lemma clean_layer_sclean y : clean_layer y -> sclean_layer y.
+Proof. destruct y; cbn [clean_layer sclean_layer]; try tauto. apply clean_sclean. Qed.
+
+(** merged layers are well-formed parameters *)
 Lemma merge_layers_try_wf : forall ys acc m,
-  Forall clean_layer ys -> wf (VMap acc) ->
+  Forall sclean_layer ys -> wf (VMap acc) ->
   foldM (fun a y => x <- try_mapping_of_yaml y ;; mapping_merge a x) ys acc = Ok m -> wf (VMap m).
 Proof.
   induction ys as [|y ys IH]; intros acc m Hc Ha H; cbn [foldM] in H.
   - injection H as <-. exact Ha.
   - inversion Hc as [|? ? Hy Hys]; subst. unfold try_mapping_of_yaml in H.
-    destruct y as [| | | | | es |]; try (exfalso; exact Hy). cbn [clean_layer] in Hy.
-    destruct (try_value_wf _ Hy) as (v & Ev & Hwv). rewrite Ev in H. cbn [bind] in H.
+    destruct y as [| | | | | es |]; try (exfalso; exact Hy). cbn [sclean_layer] in Hy.
+    destruct (try_value_of_yaml (YMap es)) as [v| | |] eqn:Ev; cbn [bind] in H; try discriminate.
+    pose proof (try_value_wf_gen _ _ Hy Ev) as Hwv.
     destruct v as [| b | s | s | n | a | l | l]; cbn [bind] in H; try discriminate.
     destruct (mapping_merge acc a) as [acc2| | |] eqn:Em; cbn [bind] in H; try discriminate.
     exact (IH _ _ Hys (mapping_merge_wf _ _ _ Ha Hwv Em) H).
@@ -129,7 +136,7 @@ Qed.
 
 (** the render of a stack (references allowed) is the render of its inlined twin *)
 Theorem stack_renders_as_its_inlined_twin F ys ys' m r :
-  Forall clean_layer ys -> Forall clean_layer ys' ->
+  Forall sclean_layer ys -> Forall sclean_layer ys' ->
   merge_layers_try ys = Ok m -> Forall2 (ytw m) ys ys' ->
   render_with_self F (VMap m) = Ok r ->
   exists m', merge_layers_try ys' = Ok m' /\ render_with_self (S F) (VMap m') = Ok r.
@@ -144,7 +151,7 @@ Qed.
 
 (** ... and, when the twin is reference-free, the deep merge of the twin *)
 Theorem stack_with_references_is_the_deep_merge_of_its_inlined_twin f F ys ys' m r :
-  Forall clean_layer ys -> ys' <> [] -> Forall layer_ok ys' ->
+  Forall sclean_layer ys -> ys' <> [] -> Forall layer_ok ys' ->
   merge_layers_try ys = Ok m -> Forall2 (ytw m) ys ys' ->
   render_with_self F (VMap m) = Ok r ->
   match deep_merge (S f) ys' with
@@ -154,7 +161,7 @@ Theorem stack_with_references_is_the_deep_merge_of_its_inlined_twin f F ys ys' m
   end.
 Proof.
   intros Hc Hne Hl Hm Hy Hr.
-  assert (Hc' : Forall clean_layer ys') by (eapply Forall_impl; [|exact Hl]; intros y Hyy; apply Hyy).
+  assert (Hc' : Forall sclean_layer ys') by (eapply Forall_impl; [|exact Hl]; intros y Hyy; apply clean_layer_sclean, Hyy).
   destruct (stack_renders_as_its_inlined_twin F ys ys' m r Hc Hc' Hm Hy Hr) as (m' & Hm' & Hr').
   destruct (render_refines_deep_merge f ys' Hne Hl) as [F0 HF].
   specialize (HF (Nat.max F0 (S F)) (Nat.le_max_l _ _)). unfold render_stack in HF. rewrite Hm' in HF. cbn [bind] in HF.
@@ -174,7 +181,7 @@ Theorem node_params_are_the_deep_merge_of_the_inlined_walk fi cfg tbl f n ndoc l
   exists seen docs ry m,
     NoDup seen /\ Forall2 (class_params cfg tbl) seen docs /\ reclass_doc cfg meta = Some ry /\
     merge_layers_try (docs ++ [ry; params_doc ndoc]) = Ok m /\
-    (Forall clean_layer (docs ++ [ry; params_doc ndoc]) ->
+    (Forall sclean_layer (docs ++ [ry; params_doc ndoc]) ->
      forall ys', Forall layer_ok ys' -> Forall2 (ytw m) (docs ++ [ry; params_doc ndoc]) ys' ->
      forall g, match deep_merge (S g) ys' with
                | SOk v => unflag (VMap (n_params r)) = v
